@@ -62,7 +62,7 @@ static void init(void) {
 }
 
 /* ---------------------------------------------------------------- phrases and their permitted variants */
-static uint64_t n_phrases(void) { return pv_scaled(3000, 120000); }
+static uint64_t n_phrases(void) { return pv_scaled(3000, 600000); }
 static void run_phrases(uint64_t idx, pv_rng* rng) {
     T = 0x19;
     pv_mlang* L = &pv_langs[idx % (uint64_t)pv_nlangs];
@@ -162,7 +162,7 @@ static void run_edges(uint64_t idx, pv_rng* rng) {
 }
 
 /* ---------------------------------------------------------------- passwords */
-static uint64_t n_passwords(void) { return pv_scaled(2000, 60000); }
+static uint64_t n_passwords(void) { return pv_scaled(2000, 600000); }
 static void run_passwords(uint64_t idx, pv_rng* rng) {
     T = 0x1919;
     pv_mseed m; pv_gen_mseed(rng, 7, true, &m);
@@ -190,7 +190,7 @@ static void run_passwords(uint64_t idx, pv_rng* rng) {
 }
 
 /* ---------------------------------------------------------------- grammar strings: compared between the builds only */
-static uint64_t n_grammar(void) { return pv_scaled(8000, 400000); }
+static uint64_t n_grammar(void) { return pv_scaled(8000, 2000000); }
 static void run_grammar(uint64_t idx, pv_rng* rng) {
     T = 0x191919;
     pv_gstr g; pv_gen_string(rng, 7, &g);
